@@ -172,7 +172,7 @@ def build(tier, repo):
     r4.require(4)
 
     r5 = chk.rule("C16-R5", "SP_* / CCS_* access macros have their reference definitions", "every access goes to the field it names")
-    from .C19 import macro_defs, _rename, _canon
+    from ..props.C19 import macro_defs, _rename, _canon
     defs = {}
     for h in ("misc.h", "cvxopt.h"):
         p = os.path.join(repo, "src", "C", h)
